@@ -16,9 +16,9 @@
      3. [same_node]: two trees of the canonical model are the same up to the split of adjacent anonymous spans: where the
         first has the anonymous spans (text nodes, inside a span) t1, ..., tn side by side, the second has the single
         anonymous span t1 ++ ... ++ tn; everything else - kinds, ids, begin / end, xml:space, xml:lang, regions, styles, animation
-        steps, order - is equal;
-     4. [style_after_break]: the one shape of document on which the reader is known not to be transparent (see there).
-   The statement (Properties/C04.v C04_noncontent_children_transparent): reading x and reading [strip x] give [same_node] results.
+        steps, order - is equal.
+   The statement (Properties/C04.v C04_noncontent_children_transparent): reading x and reading [strip x] give [same_node] results,
+   for every tree.
    It shares no code with the model of the reader. *)
 From TT Require Import Base.Prelude Base.ImscXml Spec.TtmlTimingSpec.
 Local Open Scope Z_scope.
@@ -89,30 +89,3 @@ with same_list : list mnode -> list mnode -> Prop :=
   | SL_cons n n' l l' : same_node n n' -> same_list l l' -> same_list (n :: l) (n' :: l')
   | SL_split am ts l l' : ts <> [] -> same_list l l' ->
       same_list (List.map (anon_node am) ts ++ l) (anon_node am (concat ts) :: l').
-
-(* ---- 4. the shape on which the reader is not transparent ------------------------------------------------------------------------
-   In a region with timeContainer="seq", once a child has an indefinite end the remaining children "never begin": the reader leaves
-   the children loop at the next child that is not a nested style - whether that child is content or not - and then does not read
-   the nested styles that follow either.  A non-content child in that position therefore hides the nested styles after it, while in
-   the document without it they are read (up to the next content child).  [break_shape] is true of the children of a region
-   when, in this order: a timed child other than a set (only such a child can have an indefinite end in a sequential container: a
-   set ends where it begins or where its dur / end say), a child that is not kept, a tt:style.  No document that is valid TTML2
-   has the shape (the content model of region is Metadata.class*, Animation.class*, style* ). *)
-Fixpoint break_shape (keep : xml -> bool) (l : list xml) (armed dropped : bool) : bool :=
-  match l with
-  | [] => false
-  | c :: l' =>
-      if tag_is c T_style then dropped || break_shape keep l' armed dropped
-      else if keep c then break_shape keep l' (armed || negb (tag_is c T_set)) dropped
-      else break_shape keep l' armed (dropped || armed)
-  end.
-
-Fixpoint style_after_break (x : xml) : bool :=
-  match x with
-  | X tag attrs txt tail cs =>
-      (match s_kind tag attrs with
-       | Some KRegion => s_is_seq attrs && break_shape (keeps tag attrs) cs false false
-       | _ => false
-       end)
-      || (fix any (l : list xml) : bool := match l with [] => false | c :: l' => style_after_break c || any l' end) cs
-  end.
